@@ -39,7 +39,10 @@ func ConcatenateJSON(first, second []byte) ([]byte, error) {
 		return first, nil
 	}
 
-	first[len(first)-1] = ','
-	first = append(first, second[1:]...)
-	return first, nil
+	// build the result in a new slice, first and second belong to the caller
+	merged := make([]byte, 0, len(first)+len(second)-1)
+	merged = append(merged, first[:len(first)-1]...)
+	merged = append(merged, ',')
+	merged = append(merged, second[1:]...)
+	return merged, nil
 }
